@@ -128,9 +128,12 @@ Definition successors (fs : cfs) (incs : list string) : list string :=
 Definition alpine_version_skel (matched : bool) : res unit :=
   let n := if matched then S alpine_repo_groups else O in
   if (n <? 2)%nat then Ok tt else vidx n 1.
-(* apk/cache.go fetchOffline: if len(des) == 0 { error }; des[0]; des[1:] *)
-Definition fetch_offline_skel (n : nat) : res unit :=
-  if (n =? 0)%nat then Err else do _ <- vidx n 0; if (1 <=? n)%nat then Ok tt else Panic.
+(* apk/cache.go fetchOffline, after fix c5d0145: no index expression any more (before: des[0], des[1:] behind
+   len(des) == 0). The newest entry whose name does not end in ".tmp" is kept in an interface value that
+   starts out nil; `if newest == nil { error }` comes before newest.Name(). [names]: the directory's entries. *)
+Definition fetch_offline_skel (names : list string) : res string :=
+  let newest := fold_left (fun (acc : option string) n => if has_suffix_str ".tmp" n then acc else Some n) names None in
+  match newest with None => Err | Some n => Ok n end.
 (* apk/cache.go etagFromResponse: !ok || len(v) == 0 || v[0] == "" -> none; etag := strings.Trim(v[0], <one double quote>);
    base32 of it (empty exactly when the trimmed text is); result: whether an etag comes back *)
 Definition etag_skel (present : bool) (vals : list string) : res bool :=
